@@ -113,8 +113,12 @@ fn jaspar_header(rec: &RecordModel) -> String {
 
 pub const N_STYLES_JASPAR: usize = 3;
 pub const N_STYLES_JASPAR16: usize = 3;
-pub const N_STYLES_TRANSFAC: usize = 4;
-pub const N_STYLES_UNIPROBE: usize = 3;
+/// styles 4..=7 repeat the four layouts with the counts written in exponent notation without a fractional part
+/// (`1e3`, `9.9999e4`, `0e0`: what `printf("%g")`-style writers emit for round or rescaled values)
+pub const N_STYLES_TRANSFAC: usize = 8;
+/// styles 3..=5 repeat the three layouts with every frequency written as a LONG decimal lying just above the midpoint
+/// between the intended f32 and its predecessor (a reader going through f64 first rounds twice and can land on the predecessor)
+pub const N_STYLES_UNIPROBE: usize = 6;
 
 pub fn n_styles(fmt: Fmt) -> usize {
     match fmt {
@@ -158,7 +162,17 @@ const CONSENSUS: &[u8] = b"GTAywrCNKSnb";
 
 /// TRANSFAC: style 0 prodoric-like, 1 JASPAR export (tabs, floats "x.0", PO), 2 TRANSFAC 9 with all
 /// the decoration lines of the upstream unit tests, 3 bare.
+/// A TRANSFAC count as text: plain, or (styles 4..=7) in exponent notation.
+fn tf_num(style: usize, v: u32) -> String {
+    if style % 8 >= 4 {
+        format!("{:e}", v as f64)
+    } else {
+        format!("{}", v)
+    }
+}
+
 fn write_transfac(out: &mut Vec<u8>, rec: &RecordModel, eol: &str) {
+    let full_style = rec.style;
     let style = rec.style % 4;
     let sep = if style == 1 { " " } else { "  " };
     let xx = style == 1 || style == 2;
@@ -193,7 +207,7 @@ fn write_transfac(out: &mut Vec<u8>, rec: &RecordModel, eol: &str) {
             let hdr: String = rec.symbols.iter().map(|&s| format!("\t{}", s as char)).collect();
             push_line(out, &format!("PO{}", hdr), eol);
             for (i, row) in rec.cells.iter().enumerate() {
-                let vals: String = row.iter().map(|v| format!("\t{}.0", v)).collect();
+                let vals: String = row.iter().map(|v| if full_style % 8 >= 4 { format!("\t{}", tf_num(full_style, *v)) } else { format!("\t{}.0", v) }).collect();
                 push_line(out, &format!("{:02}{}", i + 1, vals), eol);
             }
         }
@@ -201,7 +215,7 @@ fn write_transfac(out: &mut Vec<u8>, rec: &RecordModel, eol: &str) {
             let hdr: String = rec.symbols.iter().map(|&s| format!(" {}", s as char)).collect();
             push_line(out, &format!("P0{}", hdr), eol);
             for (i, row) in rec.cells.iter().enumerate() {
-                let vals: String = row.iter().map(|v| format!(" {}", v)).collect();
+                let vals: String = row.iter().map(|v| format!(" {}", tf_num(full_style, *v))).collect();
                 push_line(out, &format!("{:02}{}", i + 1, vals), eol);
             }
         }
@@ -209,7 +223,7 @@ fn write_transfac(out: &mut Vec<u8>, rec: &RecordModel, eol: &str) {
             let hdr: String = rec.symbols.iter().map(|&s| format!("{:>7}", s as char)).collect();
             push_line(out, &format!("P0{}", hdr), eol);
             for (i, row) in rec.cells.iter().enumerate() {
-                let vals: String = row.iter().map(|v| format!(" {:>6}", v)).collect();
+                let vals: String = row.iter().map(|v| format!(" {:>6}", tf_num(full_style, *v))).collect();
                 let cons = format!("      {}", CONSENSUS[i % CONSENSUS.len()] as char);
                 push_line(out, &format!("{:02}{}{}", i + 1, vals, cons), eol);
             }
@@ -254,10 +268,27 @@ fn write_transfac(out: &mut Vec<u8>, rec: &RecordModel, eol: &str) {
 
 /// UniPROBE: id line, one "S:\tf\tf..." line per named symbol; style 0 one blank line after the
 /// record, 1 none, 2 two blank lines.
+/// A UniPROBE frequency as text: the shortest decimal that reads back as `y`, or (styles 3..=5) the exact decimal
+/// expansion of the midpoint between `y` and its f32 predecessor followed by one more digit: a number strictly
+/// between the midpoint and `y`, whose correct rounding to f32 is `y`.
+fn up_num(style: usize, y: f32) -> String {
+    if style % 6 < 3 || !(y.is_normal() && y > 0.0) {
+        return format!("{}", y);
+    }
+    let x = f32::from_bits(y.to_bits() - 1);
+    let mid = (x as f64 + y as f64) / 2.0; // exact in f64
+    let mut t = format!("{:.80}", mid); // exact: a dyadic rational of this size has fewer than 80 fractional digits
+    while t.ends_with('0') {
+        t.pop();
+    }
+    t.push('1');
+    t
+}
+
 fn write_uniprobe(out: &mut Vec<u8>, rec: &RecordModel, eol: &str) {
     push_line(out, rec.id.as_deref().unwrap_or(""), eol);
     for (j, &s) in rec.symbols.iter().enumerate() {
-        let vals: String = rec.cells.iter().map(|r| format!("\t{}", freq(r, j))).collect();
+        let vals: String = rec.cells.iter().map(|r| format!("\t{}", up_num(rec.style, freq(r, j)))).collect();
         push_line(out, &format!("{}:{}", s as char, vals), eol);
     }
     for _ in 0..[1, 0, 2][rec.style % 3] {
